@@ -17,6 +17,7 @@ import hashlib
 import importlib.util
 import json
 import os
+import re
 import sys
 
 import repo_shim  # noqa: F401
@@ -25,12 +26,15 @@ from guppylang_internals import experimental as _exp
 from guppylang_internals.error import GuppyError
 
 
+_DEFID = re.compile(r"DefId\(id=\d+\)")  # process-global counter in private function names
+
+
 def hugr_fp(pkg):
     parts = []
     for h in pkg.modules:
         for n in h:
             d = h[n]
-            parts.append((n.idx, d.parent.idx if d.parent else -1, repr(d.op)))
+            parts.append((n.idx, d.parent.idx if d.parent else -1, _DEFID.sub("DefId(id=#)", repr(d.op))))
         parts.append(sorted((a.node.idx, a.offset, b.node.idx, b.offset) for a, b in h.links()))
     return hashlib.sha1(repr(parts).encode()).hexdigest()[:16]
 
@@ -105,12 +109,6 @@ def run_case(case, idx, scratch):
         res["err"] = f"{type(e).__name__}:{str(e)[:200]}"
         return res
     try:
-        from guppylang_internals.engine import ENGINE
-        try:
-            checked = ENGINE.get_checked(fn.id)
-            res["cfp"] = cfg_fp(checked)
-        except Exception:
-            res["cfp"] = None
         pkg = fn.compile_function() if hasattr(fn, "compile_function") else fn.compile()
         res["fp"] = hugr_fp(pkg)
     except GuppyError as e:
